@@ -477,10 +477,15 @@ def verify_args(
             tokenizer,
         )
     ARG_TYPES_TO_CLEAN_UP = (ArgType.SELECTOR,)
+    # `objective:selector[...]` is recognised as a scoreboard player only after merging: its
+    # selector bracket has to be cleaned up (whitespace, line breaks, comments) as well
+    PARAM_TYPES_TO_CLEAN_UP = (ArgType.SCOREBOARD, ArgType.SCOREBOARD_INT)
     for key, arg in zip(key_list, args):
         arg_type = find_arg_type(arg, tokenizer)
         arg_token = tokenizer.merge_tokens(
-            arg, is_clean_up=arg_type in ARG_TYPES_TO_CLEAN_UP
+            arg,
+            is_clean_up=arg_type in ARG_TYPES_TO_CLEAN_UP
+            or params[key] in PARAM_TYPES_TO_CLEAN_UP,
         )
         result[key] = Arg(arg_token, arg_type, arg).verify(params[key], tokenizer, key)
     for key, kwarg in kwargs.items():
@@ -495,7 +500,9 @@ def verify_args(
             )
         arg_type = find_arg_type(kwarg, tokenizer)
         kwarg_token = tokenizer.merge_tokens(
-            kwarg, is_clean_up=arg_type in ARG_TYPES_TO_CLEAN_UP
+            kwarg,
+            is_clean_up=arg_type in ARG_TYPES_TO_CLEAN_UP
+            or params[key] in PARAM_TYPES_TO_CLEAN_UP,
         )
         result[key] = Arg(kwarg_token, arg_type, kwarg).verify(
             params[key], tokenizer, key
